@@ -295,6 +295,9 @@ class JSObject:
         self._getters: Dict[str, Any] = {}  # property name -> getter function
         self._setters: Dict[str, Any] = {}  # property name -> setter function
         self._prototype = prototype
+        # Creation order of all own keys; only tracked once the object has an
+        # accessor property (until then it is the order of _properties)
+        self._key_order: Optional[Dict[str, None]] = None
 
     def get(self, key: str) -> JSValue:
         """Get a property value (does not invoke getters - use get_property for that)."""
@@ -320,35 +323,91 @@ class JSObject:
             return self._prototype.get_setter(key)
         return None
 
+    def _track_key(self, key: str) -> None:
+        if self._key_order is None:
+            self._key_order = dict.fromkeys(self._properties)
+        self._key_order[key] = None
+
     def define_getter(self, key: str, getter: Any) -> None:
-        """Define a getter for a property."""
+        """Define a getter for a property (a data property becomes an accessor)."""
+        self._track_key(key)
+        self._properties.pop(key, None)
         self._getters[key] = getter
 
     def define_setter(self, key: str, setter: Any) -> None:
-        """Define a setter for a property."""
+        """Define a setter for a property (a data property becomes an accessor)."""
+        self._track_key(key)
+        self._properties.pop(key, None)
         self._setters[key] = setter
+
+    def define_value(self, key: str, value: JSValue) -> None:
+        """Define an own data property (an accessor becomes a data property)."""
+        if self._key_order is not None:
+            self._getters.pop(key, None)
+            self._setters.pop(key, None)
+        self.set(key, value)
 
     def set(self, key: str, value: JSValue) -> None:
         """Set a property value."""
         self._properties[key] = value
+        if self._key_order is not None:
+            self._key_order[key] = None
 
     def has(self, key: str) -> bool:
-        """Check if object has own property."""
+        """Check if object has own data property."""
         return key in self._properties
 
+    def is_accessor(self, key: str) -> bool:
+        """Check if object has an own accessor property."""
+        return key in self._getters or key in self._setters
+
+    def has_own(self, key: str) -> bool:
+        """Check if object has an own property (data or accessor)."""
+        return key in self._properties or key in self._getters or key in self._setters
+
+    def get_own(self, key: str) -> JSValue:
+        """Value of an own data property."""
+        return self._properties.get(key, UNDEFINED)
+
+    def holder(self, key: str) -> Optional["JSObject"]:
+        """The first object on the prototype chain that has `key` as own property."""
+        obj = self
+        while isinstance(obj, JSObject):
+            if obj.has_own(key):
+                return obj
+            obj = obj._prototype
+        return None
+
     def delete(self, key: str) -> bool:
-        """Delete a property."""
-        if key in self._properties:
-            del self._properties[key]
-            return True
-        return False
+        """Delete an own property; deleting an absent property succeeds."""
+        self._properties.pop(key, None)
+        self._getters.pop(key, None)
+        self._setters.pop(key, None)
+        if self._key_order is not None:
+            self._key_order.pop(key, None)
+        return True
 
     def keys(self) -> List[str]:
-        """Get own enumerable property keys."""
-        return list(self._properties.keys())
+        """Get own enumerable property keys in creation order."""
+        if self._key_order is None:
+            names = list(self._properties)
+        else:
+            names = [k for k in self._key_order if self.has_own(k)]
+            names.extend(k for k in self._properties if k not in self._key_order)
+        return names
 
     def __repr__(self) -> str:
         return f"JSObject({self._properties})"
+
+
+def _is_array_index(key: str) -> bool:
+    """Canonical numeric string of an integer in [0, 2**32 - 2]."""
+    return (
+        key.isdigit()
+        and key.isascii()
+        and (key == "0" or key[0] != "0")
+        and int(key) < 2**32 - 1
+    )
 
 
 class JSCallableObject(JSObject):
@@ -399,6 +458,28 @@ class JSArray(JSObject):
                 raise IndexError("Array index out of bounds (stricter mode)")
         else:
             self._elements[index] = value
+
+    def has_own(self, key: str) -> bool:
+        if _is_array_index(key) and int(key) < len(self._elements):
+            return True
+        return key == "length" or super().has_own(key)
+
+    def get_own(self, key: str) -> JSValue:
+        if _is_array_index(key) and int(key) < len(self._elements):
+            return self._elements[int(key)]
+        if key == "length":
+            return len(self._elements)
+        return super().get_own(key)
+
+    def delete(self, key: str) -> bool:
+        if key == "length" or (
+            _is_array_index(key) and int(key) < len(self._elements)
+        ):
+            return False  # arrays have no holes
+        return super().delete(key)
+
+    def keys(self) -> List[str]:
+        return [str(i) for i in range(len(self._elements))] + super().keys()
 
     def push(self, value: JSValue) -> int:
         self._elements.append(value)
